@@ -284,6 +284,7 @@ func runC04(c *Check) {
 	sort.Strings(ck)
 	c.Note("job kinds covered by newCheckpoint: %v", ck)
 	c.Ob("R4.1", "catchup workers persisted", covered["catchupJob"] != "", p.Pos(nc.Pos()), "newCheckpoint keeps catch-up workers")
+	c04EveryCatchupWorker(c, nc)
 	// R4.1c retry heights: unsafeStats merges failed and inRetry into Failed
 	if us := d.methods["unsafeStats"]; us != nil {
 		c.SawFunc(us)
@@ -444,7 +445,7 @@ func c04SingleOwner(c *Check, d *dasCtx) {
 		for _, b := range f.Blocks {
 			for _, ins := range b.Instrs {
 				// direct field writes outside the state's own methods
-				if !allowed[rootFunc(f)] && !allowed[f] {
+				if !allowed[rootFunc(f)] && !allowed[f] && !p.onlyCalledFrom(f, func(g *ssa.Function) bool { return allowed[g] }, 0) {
 					var fv *types.Var
 					switch x := ins.(type) {
 					case *ssa.Store:
@@ -465,7 +466,8 @@ func c04SingleOwner(c *Check, d *dasCtx) {
 					continue
 				}
 				n++
-				okSite := allowed[f] || (f.Parent() != nil && allowed[rootFunc(f)] && rootFunc(f) != d.run)
+				okSite := allowed[f] || (f.Parent() != nil && allowed[rootFunc(f)] && rootFunc(f) != d.run) ||
+					p.onlyCalledFrom(f, func(g *ssa.Function) bool { return allowed[g] }, 0)
 				// closures of run would be separate goroutines: only run itself is allowed
 				if f == d.run {
 					okSite = true
@@ -1216,4 +1218,71 @@ func c13JobIDs(c *Check) {
 		}
 	}
 	c.Ob("R13.5", "constructors agree on the counter discipline", agree && len(style) >= 2, "-", fmt.Sprintf("id taken relative to the increment: %v", style))
+}
+
+// c04EveryCatchupWorker: newCheckpoint persists EVERY catch-up worker of the stats:
+// on the catchupJob side of the job-type test, each iteration reaches the append of
+// the worker's range unconditionally. A worker's Curr is initialised to the first
+// height of its range, so "Curr == To" does not mean finished; any further condition
+// in front of the append drops an in-flight height from the checkpoint.
+func c04EveryCatchupWorker(c *Check, nc *ssa.Function) {
+	p := c.P
+	var side *ssa.BasicBlock
+	for _, b := range nc.Blocks {
+		ifi, ok := b.Instrs[len(b.Instrs)-1].(*ssa.If)
+		if !ok {
+			continue
+		}
+		a := stripNot(ifi.Cond)
+		bo, ok := a.Base.(*ssa.BinOp)
+		if !ok || (bo.Op != token.EQL && bo.Op != token.NEQ) {
+			continue
+		}
+		k, isK := bo.Y.(*ssa.Const)
+		if !isK || jobTypeConstName(p, k) != "catchupJob" {
+			continue
+		}
+		eqOnTrue := (bo.Op == token.EQL) != a.Neg
+		if eqOnTrue {
+			side = b.Succs[0]
+		} else {
+			side = b.Succs[1]
+		}
+	}
+	if side == nil {
+		c.Ob("R4.1", "every catch-up worker persisted", false, p.Pos(nc.Pos()), "newCheckpoint tests the job type against catchupJob")
+		return
+	}
+	appends := blocksWhere(nc, func(ins ssa.Instruction) bool {
+		g, ok := ins.(*ssa.Call)
+		if !ok {
+			return false
+		}
+		bi, ok := g.Call.Value.(*ssa.Builtin)
+		if !ok || bi.Name() != "append" {
+			return false
+		}
+		sl, ok := g.Type().Underlying().(*types.Slice)
+		if !ok {
+			return false
+		}
+		n, ok := sl.Elem().(*types.Named)
+		return ok && n.Obj().Name() == "workerCheckpoint"
+	})
+	if appends[side] {
+		c.Ob("R4.1", "every catch-up worker persisted", true, p.Pos(nc.Pos()), "the worker is appended first thing on the catchupJob side")
+		return
+	}
+	targets := map[*ssa.BasicBlock]bool{}
+	for _, b := range nc.Blocks {
+		if b.Comment == "rangeindex.loop" || b.Comment == "rangeiter.loop" {
+			targets[b] = true
+		}
+	}
+	for _, r := range returnsOf(nc) {
+		targets[r.Block()] = true
+	}
+	res := gateWalkOpts(p, nc, targets, nil, side, appends)
+	c.Ob("R4.1", "every catch-up worker persisted", len(appends) > 0 && !res.Reached, p.Pos(nc.Pos()),
+		"on the catchupJob side every path through an iteration passes the append of the worker's range (no further condition decides whether an in-flight worker is persisted)", res.Witness...)
 }
